@@ -148,7 +148,47 @@ theorem parsePageHeader_total (data : Bytes) (h : 24 ≤ data.length) : ∃ r, p
     exact ⟨_, rfl⟩
   · exact ⟨_, rfl⟩
 
-theorem recordLoop_total (data : Bytes) (pa magic fuel pos : Nat) : ∃ r, recordLoop data pa magic fuel pos = .ok r := by
+theorem contLoop_total (fuel : Nat) (fol : Bytes) (need : Nat) : ∃ r, contLoop fuel fol need = .ok r := by
+  induction fuel generalizing fol need with
+  | zero => exact ⟨_, rfl⟩
+  | succ fuel ih =>
+    unfold contLoop
+    split
+    · split
+      · exact ⟨_, rfl⟩
+      · rename_i hl
+        rw [sliceTo_ok fol 8192 (by omega)]
+        simp only [ok_bind]
+        obtain ⟨h, hh⟩ := parsePageHeader_total (fol.take 8192) (by rw [List.length_take]; omega)
+        simp only [hh, ok_bind]
+        split
+        · exact ⟨_, rfl⟩
+        · have hhs : headerSize h.info = 24 ∨ headerSize h.info = 40 := by unfold headerSize; split <;> simp
+          rw [slice_ok _ _ _ (by rw [List.length_take]; split <;> omega) (by omega), sliceFrom_ok fol 8192 (by omega)]
+          simp only [ok_bind]
+          obtain ⟨r, hr⟩ := ih (fol.drop 8192) (need - if 8192 - headerSize h.info > need then need else 8192 - headerSize h.info)
+          simp only [hr, ok_bind]
+          cases r <;> exact ⟨_, rfl⟩
+    · exact ⟨_, rfl⟩
+
+theorem continuationData_total (fol : Bytes) (need : Nat) : ∃ r, continuationData fol need = .ok r := by
+  unfold continuationData
+  split
+  · exact contLoop_total _ _ _
+  · exact ⟨_, rfl⟩
+
+theorem recordBytes_total (tail fol : Bytes) (h : 4 ≤ tail.length) : ∃ r, recordBytes tail fol = .ok r := by
+  unfold recordBytes
+  rw [uN_ok 4 tail 0 (by omega)]
+  simp only [ok_bind]
+  split
+  · obtain ⟨c, hc⟩ := continuationData_total fol (rd 4 (tail.drop 0) - tail.length)
+    simp only [hc, ok_bind]
+    cases c <;> exact ⟨_, rfl⟩
+  · exact ⟨_, rfl⟩
+
+theorem recordLoop_total (data fol : Bytes) (pa magic fuel pos : Nat) :
+    ∃ r, recordLoop data fol pa magic fuel pos = .ok r := by
   induction fuel generalizing pos with
   | zero => exact ⟨_, rfl⟩
   | succ fuel ih =>
@@ -159,7 +199,9 @@ theorem recordLoop_total (data : Bytes) (pa magic fuel pos : Nat) : ∃ r, recor
       simp only [ok_bind]
       split
       · exact ⟨_, rfl⟩
-      · obtain ⟨rc, hrc⟩ := parseXLogRecord_total (data.drop pos) ((pa + pos) % 2 ^ 64) magic
+      · obtain ⟨rb, hrb⟩ := recordBytes_total (data.drop pos) fol (by rw [List.length_drop]; omega)
+        simp only [hrb, ok_bind]
+        obtain ⟨rc, hrc⟩ := parseXLogRecord_total rb ((pa + pos) % 2 ^ 64) magic
         simp only [hrc, ok_bind]
         split
         · exact ⟨_, rfl⟩
@@ -168,7 +210,7 @@ theorem recordLoop_total (data : Bytes) (pa magic fuel pos : Nat) : ∃ r, recor
           exact ⟨_, rfl⟩
     · exact ⟨_, rfl⟩
 
-theorem parseWALPage_total (data : Bytes) : ∃ r, parseWALPage data = .ok r := by
+theorem parseWALPage_total (data fol : Bytes) : ∃ r, parseWALPage data fol = .ok r := by
   unfold parseWALPage
   split
   · exact ⟨_, rfl⟩
@@ -177,7 +219,7 @@ theorem parseWALPage_total (data : Bytes) : ∃ r, parseWALPage data = .ok r := 
     simp only [hh, ok_bind]
     split
     · exact ⟨_, rfl⟩
-    · obtain ⟨rs, hrs⟩ := recordLoop_total data h.pageAddr h.magic data.length (startPos h)
+    · obtain ⟨rs, hrs⟩ := recordLoop_total data fol h.pageAddr h.magic data.length (startPos h)
       simp only [hrs, ok_bind]
       exact ⟨_, rfl⟩
 
@@ -188,9 +230,9 @@ theorem pagesLoop_total (data : Bytes) (fuel off : Nat) : ∃ r, pagesLoop data 
     unfold pagesLoop
     split
     · rename_i hc
-      rw [slice_ok data off (off + 8192) hc (by omega)]
+      rw [slice_ok data off (off + 8192) hc (by omega), sliceFrom_ok data (off + 8192) hc]
       simp only [ok_bind]
-      obtain ⟨r, hr⟩ := parseWALPage_total ((data.take (off + 8192)).drop off)
+      obtain ⟨r, hr⟩ := parseWALPage_total ((data.take (off + 8192)).drop off) (data.drop (off + 8192))
       obtain ⟨rest, hrest⟩ := ih (off + 8192)
       simp only [hr, hrest, ok_bind]
       exact ⟨_, rfl⟩
@@ -235,26 +277,34 @@ theorem recentLoop_total (dir : Dir) (limit : Int) (names : List String) (acc : 
       | some rs => exact ih _
     · exact ⟨_, rfl⟩
 
-theorem getRecent_total (dir : Dir) (limit : Int) (h : 0 ≤ limit) : ∃ r, getRecentWALRecords dir limit = .ok r := by
-  unfold getRecentWALRecords
+theorem recentFrom_total (dir : Dir) (limit : Int) (h : 0 ≤ limit) : ∃ r, recentFrom dir limit = .ok r := by
+  unfold recentFrom
   obtain ⟨all, hall⟩ := recentLoop_total dir limit (walFiles dir).reverse []
   simp only [hall, ok_bind]
   split
   · rw [if_neg (by omega)]; exact ⟨_, rfl⟩
   · exact ⟨_, rfl⟩
 
+theorem getRecent_total (dir : Dir) (limit : Int) : ∃ r, getRecentWALRecords dir limit = .ok r := by
+  unfold getRecentWALRecords
+  by_cases h : limit < 0
+  · rw [if_pos h]; exact recentFrom_total dir 0 (by omega)
+  · rw [if_neg h]; exact recentFrom_total dir limit (by omega)
+
 /-! ## The page loop as a pure function; per-page independence (DESIGN.md B.8) -/
 
-/-- what parseWALPage contributes to the result of ParseWALFile (an error return = skipped page = nothing) -/
-def pageRecs (pg : Bytes) : List Record :=
-  match parseWALPage pg with
+/-- what parseWALPage contributes to the result of ParseWALFile (an error return = skipped page = nothing);
+`fol` = the pages that follow -/
+def pageRecs (pg fol : Bytes) : List Record :=
+  match parseWALPage pg fol with
   | .ok (some rs) => rs
   | _ => []
 
 def pagesPure (data : Bytes) : Nat → Nat → List Record
   | 0, _ => []
   | fuel+1, off =>
-    if off + 8192 ≤ data.length then pageRecs ((data.take (off + 8192)).drop off) ++ pagesPure data fuel (off + 8192)
+    if off + 8192 ≤ data.length then
+      pageRecs ((data.take (off + 8192)).drop off) (data.drop (off + 8192)) ++ pagesPure data fuel (off + 8192)
     else []
 
 theorem pagesLoop_eq (data : Bytes) (fuel off : Nat) : pagesLoop data fuel off = .ok (pagesPure data fuel off) := by
@@ -264,9 +314,9 @@ theorem pagesLoop_eq (data : Bytes) (fuel off : Nat) : pagesLoop data fuel off =
     unfold pagesLoop pagesPure
     split
     · rename_i hc
-      rw [slice_ok data off (off + 8192) hc (by omega)]
+      rw [slice_ok data off (off + 8192) hc (by omega), sliceFrom_ok data (off + 8192) hc]
       simp only [ok_bind]
-      obtain ⟨r, hr⟩ := parseWALPage_total ((data.take (off + 8192)).drop off)
+      obtain ⟨r, hr⟩ := parseWALPage_total ((data.take (off + 8192)).drop off) (data.drop (off + 8192))
       simp only [hr, ih, ok_bind, pure_eq_ok, pageRecs]
       cases r <;> rfl
     · rfl
@@ -292,7 +342,9 @@ theorem pagesPure_append_right (a b : Bytes) (o fuel : Nat) :
       have hd : ((a ++ b).take (a.length + o + 8192)).drop (a.length + o) = (b.take (o + 8192)).drop o := by
         rw [show a.length + o + 8192 = a.length + (o + 8192) by omega, List.take_length_add_append,
           List.drop_length_add_append]
-      rw [hd, show a.length + o + 8192 = a.length + (o + 8192) by omega, ih]
+      have hf : (a ++ b).drop (a.length + o + 8192) = b.drop (o + 8192) := by
+        rw [show a.length + o + 8192 = a.length + (o + 8192) by omega, List.drop_length_add_append]
+      rw [hd, hf, show a.length + o + 8192 = a.length + (o + 8192) by omega, ih]
     · rw [if_neg (by omega), if_neg h]
 
 theorem pagesPure_fuel (data : Bytes) (o f1 f2 : Nat) (h1 : (data.length - o) / 8192 < f1)
@@ -313,8 +365,12 @@ theorem pagesPure_fuel (data : Bytes) (o f1 f2 : Nat) (h1 : (data.length - o) / 
         exact ih (o + 8192) f2 (by omega) (by omega)
       · rw [if_neg h, if_neg h]
 
-theorem pagesPure_append_left (a b : Bytes) (k fuel f2 : Nat) (ha : a.length = (k + fuel) * 8192) :
-    pagesPure (a ++ b) (fuel + f2) (k * 8192) = pagesPure a fuel (k * 8192) ++ pagesPure (a ++ b) f2 a.length := by
+/-- the records reported for the pages of `a` (whole pages) when the bytes `b` follow: the first
+`a.length / 8192` iterations of the page loop over `a ++ b` -/
+def prefixRecs (a b : Bytes) : List Record := pagesPure (a ++ b) (a.length / 8192) 0
+
+theorem pagesPure_split (a b : Bytes) (k fuel f2 : Nat) (ha : a.length = (k + fuel) * 8192) :
+    pagesPure (a ++ b) (fuel + f2) (k * 8192) = pagesPure (a ++ b) fuel (k * 8192) ++ pagesPure (a ++ b) f2 a.length := by
   induction fuel generalizing k with
   | zero =>
     simp only [pagesPure, List.nil_append, Nat.zero_add]
@@ -323,34 +379,38 @@ theorem pagesPure_append_left (a b : Bytes) (k fuel f2 : Nat) (ha : a.length = (
     rw [show fuel + 1 + f2 = (fuel + f2) + 1 by omega]
     simp only [pagesPure, List.length_append]
     have hle : k * 8192 + 8192 ≤ a.length := by omega
-    rw [if_pos (by omega), if_pos hle]
-    have htk : ((a ++ b).take (k * 8192 + 8192)).drop (k * 8192) = (a.take (k * 8192 + 8192)).drop (k * 8192) := by
-      rw [List.take_append_of_le_length hle]
-    rw [htk, show k * 8192 + 8192 = (k + 1) * 8192 by omega,
+    rw [if_pos (by omega), if_pos (by omega)]
+    rw [show k * 8192 + 8192 = (k + 1) * 8192 by omega,
       ih (k + 1) (by rw [ha]; congr 1; omega), List.append_assoc]
 
-/-- reading `a ++ b` for a page-aligned `a` = reading `a`, then reading `b` -/
+/-- reading `a ++ b` for a page-aligned `a` = what the pages of `a` give (with `b` following), then reading `b`:
+the pages of `b` are read as if nothing preceded them -/
 theorem fileRecs_append (a b : Bytes) (n : Nat) (ha : a.length = n * 8192) :
-    fileRecs (a ++ b) = fileRecs a ++ fileRecs b := by
-  unfold fileRecs
+    fileRecs (a ++ b) = prefixRecs a b ++ fileRecs b := by
+  unfold fileRecs prefixRecs
   have h1 : pagesPure (a ++ b) ((a ++ b).length / 8192 + 1) 0 = pagesPure (a ++ b) (n + (b.length / 8192 + 1)) 0 := by
     apply pagesPure_fuel
     · simp only [Nat.sub_zero]; omega
     · simp only [Nat.sub_zero, List.length_append, ha]
       rw [Nat.add_comm (n * 8192), Nat.add_mul_div_right _ _ (by decide : 0 < 8192)]; omega
-  have h2 := pagesPure_append_left a b 0 n (b.length / 8192 + 1) (by simpa using ha)
+  have h2 := pagesPure_split a b 0 n (b.length / 8192 + 1) (by simpa using ha)
   rw [Nat.zero_mul] at h2
   rw [h1, h2]
   have h3 := pagesPure_append_right a b 0 (b.length / 8192 + 1)
   rw [show a.length + 0 = a.length from rfl] at h3
-  rw [h3]
+  rw [h3, ha, Nat.mul_div_cancel _ (by decide : 0 < 8192)]
+
+/-- one page followed by `rest`: what the page gives (with `rest` following), then `rest` -/
+theorem fileRecs_cons (pg rest : Bytes) (h : pg.length = 8192) :
+    fileRecs (pg ++ rest) = pageRecs pg rest ++ fileRecs rest := by
+  rw [fileRecs_append pg rest 1 (by omega)]
   congr 1
-  have h4 := pagesPure_append_left a [] 0 n 1 (by simpa using ha)
-  rw [List.append_nil, Nat.zero_mul] at h4
-  have h5 : pagesPure a 1 a.length = [] := by
-    simp only [pagesPure]; rw [if_neg (by omega)]
-  rw [h5, List.append_nil] at h4
-  rw [← h4, ha, Nat.mul_div_cancel _ (by decide : 0 < 8192)]
+  unfold prefixRecs
+  rw [h]
+  simp only [pagesPure, List.length_append, h]
+  rw [if_pos (by omega), List.append_nil, Nat.zero_add, List.drop_zero, ← h, List.take_left', List.drop_left']
+  · rfl
+  · rfl
 
 /-! ## Reading fields of an encoded record -/
 
@@ -772,8 +832,9 @@ theorem parseXLogRecord_whole (r : Spec.Wal.WalRecord) (hr : r.WF) (rest : Bytes
     rw [blocks_nil_of_totLen r (by have := totLen_ge r; omega)]
     rfl
 
-/-- a record cut by the end of the buffer after at least its header is reported without block references
-(known finding C17-crosspage-blocks), and still consumed with its total length -/
+/-- a record cut by the end of the buffer after at least its header is reported without block references, and
+still consumed with its total length (what parseWALPage falls back to when the following pages do not carry the
+rest of the record, e.g. at the end of a segment file; not used by the segment theorem any more) -/
 theorem parseXLogRecord_cut (r : Spec.Wal.WalRecord) (hr : r.WF) (n : Nat) (h24 : 24 ≤ n) (hn : n < r.totLen)
     (lsn magic : Nat) :
     parseXLogRecord ((encRecord r).take n) lsn magic = .ok (some (recM lsn r []), r.totLen) := by
@@ -832,32 +893,64 @@ theorem encRecord_length (r : Spec.Wal.WalRecord) : (encRecord r).length = r.tot
 
 open PgVerif.Spec.Wal (Trailer pageHdrBytes)
 
-/-- the records the loop must report from in-page position `pos` on: the whole records with their block
-references, then a record cut by the page end without them -/
+/-- the records the loop must report from in-page position `pos` on: the whole records, then the record cut
+by the page end — each with all its fields and block references -/
 def loopRecs (pa : Nat) : Nat → List Spec.Wal.WalRecord → Trailer → List Record
-  | pos, [], .cut r _ => [recM ((pa + pos) % 2 ^ 64) r []]
-  | _, [], _ => []
+  | pos, [], .cut r _ => [recM ((pa + pos) % 2 ^ 64) r (viewsM none r.blocks)]
+  | _, [], .zeros _ => []
   | pos, r :: rs, tr =>
     recM ((pa + pos) % 2 ^ 64) r (viewsM none r.blocks) :: loopRecs pa (pos + Spec.Wal.align8 r.totLen) rs tr
+
+/-- the pages that follow carry the rest of the record cut by the page end -/
+def ContOK (fol : Bytes) : Trailer → Prop
+  | .cut r n => continuationData fol (r.totLen - n) = .ok (some ((encRecord r).drop n))
+  | .zeros _ => True
 
 theorem encRecord_le4 (r : Spec.Wal.WalRecord) :
     encRecord r = le 4 r.totLen ++ (le 4 r.xid ++ (le 8 r.prev ++ UInt8.ofNat r.info :: UInt8.ofNat r.rmid :: 0 :: 0 :: (le 4 r.crc ++ encBody r))) := by
   simp [encRecord, encRecHeader, List.append_assoc]
 
-theorem recordLoop_end (data : Bytes) (pa magic fuel pos : Nat) (h : data.length < pos + 24) :
-    recordLoop data pa magic fuel pos = .ok [] := by
+theorem recordLoop_end (data fol : Bytes) (pa magic fuel pos : Nat) (h : data.length < pos + 8) :
+    recordLoop data fol pa magic fuel pos = .ok [] := by
   cases fuel with
   | zero => rfl
   | succ fuel => unfold recordLoop; rw [if_neg (by omega)]; rfl
 
-theorem recordLoop_trailer (pre : Bytes) (tr : Trailer) (htr : tr.WF) (pa magic fuel : Nat) (hf : 1 ≤ fuel) :
-    recordLoop (pre ++ tr.bytes) pa magic fuel pre.length = .ok (loopRecs pa pre.length [] tr) := by
+/-- a record that lies wholly in what is left of the page is parsed from those bytes -/
+theorem recordBytes_whole (r : Spec.Wal.WalRecord) (hr : r.WF) (rest fol : Bytes) :
+    recordBytes (encRecord r ++ rest) fol = .ok (encRecord r ++ rest) := by
+  have hlen := encRecord_length r
+  have htot : r.totLen ≤ 16000 := hr.2.2.2.2.2.2.2.2.2.2
+  unfold recordBytes
+  rw [show uN 4 (encRecord r ++ rest) 0 = .ok r.totLen by
+    rw [encRecord_le4]; simp only [List.append_assoc]; exact uN_mid 4 _ [] _ 0 rfl (by omega)]
+  simp only [ok_bind]
+  rw [if_neg (by simp only [Bool.and_eq_true, decide_eq_true_eq, List.length_append, hlen]; omega)]
+  rfl
+
+/-- a record cut by the page end after `n ≥ 4` bytes is put together from those bytes and the continuation data
+of the following pages -/
+theorem recordBytes_cut (r : Spec.Wal.WalRecord) (hr : r.WF) (n : Nat) (h4 : 4 ≤ n) (hn : n < r.totLen) (fol : Bytes)
+    (hc : continuationData fol (r.totLen - n) = .ok (some ((encRecord r).drop n))) :
+    recordBytes ((encRecord r).take n) fol = .ok (encRecord r) := by
+  have hlen := encRecord_length r
+  have htot : r.totLen ≤ 16000 := hr.2.2.2.2.2.2.2.2.2.2
+  unfold recordBytes
+  rw [show uN 4 ((encRecord r).take n) 0 = .ok r.totLen by
+    rw [encRecord_le4, List.take_append, le_length, List.take_of_length_le (by simp; omega)]
+    exact uN_mid 4 _ [] _ 0 rfl (by omega)]
+  simp only [ok_bind]
+  rw [if_pos (by simp only [Bool.and_eq_true, decide_eq_true_eq, List.length_take, hlen]; omega)]
+  rw [List.length_take, hlen, show min n r.totLen = n by omega, hc]
+  simp only [ok_bind, pure_eq_ok, List.take_append_drop]
+
+theorem recordLoop_trailer (pre fol : Bytes) (tr : Trailer) (htr : tr.WF) (hc : ContOK fol tr) (pa magic fuel : Nat)
+    (hf : 2 ≤ fuel) :
+    recordLoop (pre ++ tr.bytes) fol pa magic fuel pre.length = .ok (loopRecs pa pre.length [] tr) := by
   cases fuel with
   | zero => omega
   | succ fuel =>
     cases tr with
-    | short bs =>
-      exact recordLoop_end _ _ _ _ _ (by simp only [Trailer.bytes, List.length_append]; have : bs.length < 24 := htr; omega)
     | zeros bs =>
       unfold recordLoop
       split
@@ -867,21 +960,26 @@ theorem recordLoop_trailer (pre : Bytes) (tr : Trailer) (htr : tr.WF) (pa magic 
         rw [if_pos hz]; rfl
       · rfl
     | cut r n =>
-      obtain ⟨hr, h24, hn⟩ := htr
+      obtain ⟨hr, h8, hn⟩ := htr
       have hlen := encRecord_length r
+      have h24 := totLen_ge r
       unfold recordLoop
       rw [if_pos (by simp only [Trailer.bytes, List.length_append, List.length_take]; omega)]
       rw [sliceFrom_ok _ _ (by simp)]
       simp only [ok_bind, List.drop_left', Trailer.bytes]
       have hz : isZeroPadding ((encRecord r).take n) = false := by
         rw [encRecord_le4, List.take_append, le_length, List.take_of_length_le (by simp; omega)]
-        exact le4_not_zero _ (by have := totLen_ge r; omega) (by have := hr.2.2.2.2.2.2.2.2.2.2; omega) _
+        exact le4_not_zero _ (by omega) (by have := hr.2.2.2.2.2.2.2.2.2.2; omega) _
       rw [hz]
       simp only [Bool.false_eq_true, if_false]
-      rw [parseXLogRecord_cut r hr n h24 hn]
+      rw [recordBytes_cut r hr n (by omega) hn fol hc]
       simp only [ok_bind]
-      rw [if_neg (by simp only [beq_iff_eq]; have := totLen_ge r; omega)]
-      rw [recordLoop_end _ _ _ _ _ (by
+      have hw := parseXLogRecord_whole r hr [] ((pa + pre.length) % 2 ^ 64) magic
+      rw [List.append_nil] at hw
+      rw [hw]
+      simp only [ok_bind]
+      rw [if_neg (by simp only [beq_iff_eq]; omega)]
+      rw [recordLoop_end _ _ _ _ _ _ (by
         rw [align8_eq]; simp only [List.length_append, List.length_take, Spec.Wal.align8]; omega)]
       rfl
 
@@ -889,13 +987,15 @@ theorem recordLoop_trailer (pre : Bytes) (tr : Trailer) (htr : tr.WF) (pa magic 
 /-- **Record-loop invariant.**  From an 8-aligned in-page position `pre.length`, with the rest of the page
 being whole MAXALIGN-padded records followed by a trailer, the loop reports exactly those records, each at
 `(pageAddr + position) mod 2^64`, with all header fields and block references; then the record cut by the
-page end (without block references), if there is one. -/
+page end — anywhere after its first 8 bytes, also inside its 24-byte header — put together from the
+continuation data of the following pages. -/
 theorem recordLoop_enc (rs : List Spec.Wal.WalRecord) (hrs : ∀ r ∈ rs, r.WF) (tr : Trailer) (htr : tr.WF)
-    (pre : Bytes) (hpre : pre.length % 8 = 0) (pa magic fuel : Nat) (hf : rs.length + 1 ≤ fuel) :
-    recordLoop (pre ++ ((rs.flatMap fun r => pad8 (encRecord r)) ++ tr.bytes)) pa magic fuel pre.length =
+    (fol : Bytes) (hc : ContOK fol tr)
+    (pre : Bytes) (hpre : pre.length % 8 = 0) (pa magic fuel : Nat) (hf : rs.length + 2 ≤ fuel) :
+    recordLoop (pre ++ ((rs.flatMap fun r => pad8 (encRecord r)) ++ tr.bytes)) fol pa magic fuel pre.length =
       .ok (loopRecs pa pre.length rs tr) := by
   induction rs generalizing pre fuel with
-  | nil => simpa using recordLoop_trailer pre tr htr pa magic fuel (by simpa using hf)
+  | nil => simpa using recordLoop_trailer pre fol tr htr hc pa magic fuel (by simpa using hf)
   | cons r rs ih =>
     cases fuel with
     | zero => omega
@@ -920,7 +1020,9 @@ theorem recordLoop_enc (rs : List Spec.Wal.WalRecord) (hrs : ∀ r ∈ rs, r.WF)
         exact le4_not_zero _ (by omega) (by have := hr.2.2.2.2.2.2.2.2.2.2; omega) _
       rw [hz]
       simp only [Bool.false_eq_true, if_false]
-      rw [hsplit, parseXLogRecord_whole r hr]
+      rw [hsplit, recordBytes_whole r hr]
+      simp only [ok_bind]
+      rw [parseXLogRecord_whole r hr]
       simp only [ok_bind]
       rw [if_neg (by simp only [beq_iff_eq]; omega)]
       have hnext : align8 (pre.length + r.totLen) = (pre ++ pad8 (encRecord r)).length := by
@@ -981,13 +1083,13 @@ theorem flatMap_pad8_length (rs : List Spec.Wal.WalRecord) :
 
 /-- the page header, the continuation area, then whole records and a trailer: parseWALPage reports the records -/
 theorem parseWALPage_enc (magic info tli addr rem : Nat) (ext cont : Bytes)
-    (rs : List Spec.Wal.WalRecord) (tr : Trailer)
+    (rs : List Spec.Wal.WalRecord) (tr : Trailer) (fol : Bytes)
     (hm : magic < 2 ^ 16) (hi : info < 2 ^ 16) (ht : tli < 2 ^ 32) (ha : addr < 2 ^ 64) (hr : rem < 2 ^ 32)
     (hvalid : isValidMagic magic = true)
     (hext : ext.length = if info &&& 0x0002 != 0 then 16 else 0)
     (hcont : cont.length = if info &&& 0x0001 != 0 && rem > 0 then Spec.Wal.align8 rem else 0)
-    (hrs : ∀ r ∈ rs, r.WF) (htr : tr.WF) :
-    parseWALPage (pageHdrBytes magic info tli addr rem ext ++ cont ++ ((rs.flatMap fun r => pad8 (encRecord r)) ++ tr.bytes)) =
+    (hrs : ∀ r ∈ rs, r.WF) (htr : tr.WF) (hc : ContOK fol tr) :
+    parseWALPage (pageHdrBytes magic info tli addr rem ext ++ cont ++ ((rs.flatMap fun r => pad8 (encRecord r)) ++ tr.bytes)) fol =
       .ok (some (loopRecs addr (24 + ext.length + cont.length) rs tr)) := by
   have hl := pageHdrBytes_length magic info tli addr rem ext
   unfold parseWALPage
@@ -1003,27 +1105,27 @@ theorem parseWALPage_enc (magic info tli addr rem : Nat) (ext cont : Bytes)
       simp only [hl2, hc, if_true, if_false, Bool.false_eq_true, align8_eq, Spec.Wal.align8] <;> omega
   have hfl := flatMap_pad8_length rs
   rw [hstart, ← List.append_assoc]
-  rw [recordLoop_enc rs hrs tr htr _ (by
+  rw [recordLoop_enc rs hrs tr htr fol hc _ (by
         rw [List.length_append, hl, hext, hcont]
         by_cases hl2 : (info &&& 0x0002 != 0) = true <;> by_cases hc : (info &&& 0x0001 != 0 && decide (rem > 0)) = true <;>
           simp only [hl2, hc, if_true, if_false, Bool.false_eq_true, Spec.Wal.align8] <;> omega)
       addr magic _ (by simp only [List.length_append, hl]; omega)]
   simp only [ok_bind, pure_eq_ok, List.length_append, hl]
 
-/-- a page whose continuation data (rem_len) reaches to within 24 bytes of its end holds no record start -/
-theorem parseWALPage_allcont (magic info tli addr rem : Nat) (ext tail : Bytes)
+/-- a page whose continuation data (rem_len) reaches to within 8 bytes of its end holds no record start -/
+theorem parseWALPage_allcont (magic info tli addr rem : Nat) (ext tail fol : Bytes)
     (hm : magic < 2 ^ 16) (hi : info < 2 ^ 16) (ht : tli < 2 ^ 32) (ha : addr < 2 ^ 64) (hr : rem < 2 ^ 32)
     (hvalid : isValidMagic magic = true) (hflag : (info &&& 0x0001 != 0) = true)
     (hext : ext.length = if info &&& 0x0002 != 0 then 16 else 0)
-    (hfull : 24 + ext.length + tail.length < 24 + ext.length + Spec.Wal.align8 rem + 24) :
-    parseWALPage (pageHdrBytes magic info tli addr rem ext ++ tail) = .ok (some []) := by
+    (hfull : 24 + ext.length + tail.length < 24 + ext.length + Spec.Wal.align8 rem + 8) :
+    parseWALPage (pageHdrBytes magic info tli addr rem ext ++ tail) fol = .ok (some []) := by
   have hl := pageHdrBytes_length magic info tli addr rem ext
   unfold parseWALPage
   rw [if_neg (by simp only [List.length_append]; omega)]
   obtain ⟨h, hh, h1, h2, h3, h4⟩ := parsePageHeader_enc magic info tli addr rem ext tail hm hi ht ha hr
   rw [hh]
   simp only [ok_bind, h1, hvalid, Bool.not_true, Bool.false_eq_true, if_false]
-  rw [recordLoop_end _ _ _ _ _ (by
+  rw [recordLoop_end _ _ _ _ _ _ (by
     unfold startPos headerSize
     rw [h2, h4, hflag]
     simp only [List.length_append, hl, hext, Bool.true_and, align8_eq] at hfull ⊢
@@ -1033,26 +1135,10 @@ theorem parseWALPage_allcont (magic info tli addr rem : Nat) (ext tail : Bytes)
 
 /-! ## Files as lists of pages -/
 
-theorem fileRecs_page (pg : Bytes) (h : pg.length = 8192) : fileRecs pg = pageRecs pg := by
-  unfold fileRecs
-  rw [h]
-  simp only [pagesPure, h]
-  rw [if_pos (by omega), if_neg (by omega), List.append_nil, List.drop_zero, Nat.zero_add, ← h, List.take_length]
-
 theorem fileRecs_short (t : Bytes) (h : t.length < 8192) : fileRecs t = [] := by
   unfold fileRecs
   simp only [pagesPure]
   rw [if_neg (by omega)]
-
-theorem fileRecs_pages (pgs : List Bytes) (h : ∀ p ∈ pgs, p.length = 8192) (tail : Bytes) (ht : tail.length < 8192) :
-    fileRecs (pgs.flatten ++ tail) = pgs.flatMap pageRecs := by
-  induction pgs with
-  | nil => simpa using fileRecs_short tail ht
-  | cons p ps ih =>
-    have hp := h p (by simp)
-    rw [List.flatten_cons, List.append_assoc, fileRecs_append p _ 1 (by omega), fileRecs_page p hp,
-      ih (fun q hq => h q (by simp [hq]))]
-    rfl
 
 theorem rd_zeros (n m : Nat) : rd n (zeros m) = 0 := by
   induction n generalizing m with
@@ -1067,7 +1153,7 @@ theorem rd_zeros (n m : Nat) : rd n (zeros m) = 0 := by
 theorem drop_zeros (k m : Nat) : (zeros m).drop k = zeros (m - k) := by simp [zeros]
 
 /-- a never-written (all-zero) page is skipped -/
-theorem pageRecs_zeros (m : Nat) (hm : 24 ≤ m) : pageRecs (zeros m) = [] := by
+theorem pageRecs_zeros (m : Nat) (hm : 24 ≤ m) (fol : Bytes) : pageRecs (zeros m) fol = [] := by
   unfold pageRecs parseWALPage
   rw [if_neg (by simp; omega)]
   unfold parsePageHeader
